@@ -224,6 +224,17 @@ def run(ctx):
     if vh is None:
         return
     seed = ctx.seed
+    rp = getattr(ctx, "replay_file", None)
+    if rp:
+        # --replay: run the recorded scenario set again (same seed and flags) in the recorded mode
+        rep = json.load(open(rp)).get("replay", {})
+        if rep.get("engine") == "order" and rep.get("args"):
+            if rep.get("mode") == "handler":
+                handler_suite(ctx, vh, "replay", [str(a) for a in rep["args"]])
+            else:
+                wire_suite(ctx, vh, "replay", [str(a) for a in rep["args"]])
+            return
+        ctx.note("replay file names no scenario (kind=%s); running the whole tier" % rep.get("kind"))
     if ctx.quick:
         wire_suite(ctx, vh, "burst", ["-seed", seed, "-n", 36, "-burst", 16, "-par", 6])
         wire_suite(ctx, vh, "paced", ["-seed", seed + 1, "-n", 6, "-emitters", 4, "-burst", 30, "-pace", 40000, "-par", 6])
